@@ -30,9 +30,9 @@ def make_recording(src, seed):
     chdir = os.path.join(src, "chA")
     mdir = os.path.join(chdir, "metadata")
     os.makedirs(mdir)
-    cfg = rf.Cfg(n=N, d=D, fc=1000, sc=2, start=md.first_of_ts(1394368230, N, D), cont=False)
+    cfg = rf.Cfg(n=N, d=D, fc=500, sc=2, start=md.first_of_ts(1394368230, N, D), cont=False)
     w = rf.open_writer(drf, chdir, cfg)
-    w.rf_write(rf.make_values(cfg, seed, cfg["start"], 7))  # spans 2-3 files
+    w.rf_write(rf.make_values(cfg, seed, cfg["start"], 5))  # three files of 500 ms: .000, .500, .000
     w.close()
     mw = drf.DigitalMetadataWriter(mdir, 10, 2, N, D, "metadata")
     mw.write(cfg["start"] + 1, {"v": 1})
